@@ -38,6 +38,13 @@ def install(ctx):
             ctx.violation('rows:model-id', 'model index and model name of a row do not refer to the same package row',
                           dict(wit, model_id=ids[:10], names=[str(x) for x in result.model_name[:10]], package_rows=rownames[:10]))
             return True
+        prev = CUR.get('prev_result')
+        if prev is not None and prev[2] is self:
+            dd_ = probe.same_canon(prev[1], probe.canon_info(prev[0], with_source=False))
+            if dd_:
+                ctx.violation('rows:earlier-result-changed-by-later-fit', 'a result returned earlier no longer describes its models after a later fit on the same fitter: %s' % dd_, wit)
+            ctx.event('earlier-result-rechecked')
+        CUR['prev_result'] = (result, probe.canon_info(result, with_source=False), self)
         valid, flux, error = CUR['phot']
         if mode == '2d':
             sm = fitcheck.check_fit2d(ctx, truth, valid, flux, error, result, wit, keyp='coherence2d')
@@ -59,7 +66,7 @@ def run(ctx):
     ctx.assume('row coherence uses the C01/C02 reference evaluated at the row\'s own (A_V, scale) with the truth fluxes of the model the row names',
                'rows with infinite chi^2: ranking and identity only (observed: remove_resolved never excludes the largest trial aperture, so it yields excluded (model, distance) pairs but no infinite rows; infinities inside chi^2 are mapped to 1e30)', 'remove_resolved only with use_memmap=False (memmap path skips the exclusion; outside every quantifier)',
                'tie order is free')
-    ctx.require_events('Fitter.fit:post', 'rows_checked', 'model_fluxes_checked')
+    ctx.require_events('Fitter.fit:post', 'rows_checked', 'model_fluxes_checked', 'earlier-result-rechecked')
     ctx.require_regimes('exact_ties', 'rows_1e30', 'rows_inf', 'rows_nan', 'resolved_excluded', 'single_model', 'models>=200', 'mode:2d', 'mode:3d', 'style:v1', 'style:v2')
     n_pkg = 16 if ctx.quick else 240
     n_src = 20 if ctx.quick else 40
@@ -70,6 +77,8 @@ def run(ctx):
         n_models = int(rng.choice([1, 2, 6, 15, 40, 200], p=[0.1, 0.15, 0.3, 0.2, 0.15, 0.1]))
         if ip == 1:
             n_models = 200
+        if ip == 3 and not ctx.quick and ctx.shard == 0:
+            n_models = 1500
         if ip == 2:
             n_models = 1
         n_bands = int(rng.integers(2, 7))
@@ -126,12 +135,13 @@ def run(ctx):
             dr = (1.0, 2.0)
         else:
             dmin = float(gen.loguniform(rng, 0.1, 5.0))
-            dr = (dmin, dmin * 10 ** rng.uniform(0.0, 0.8))
+            dr = (dmin, dmin * 10 ** rng.uniform(0.0, 0.8)) if rng.random() < 0.85 else (dmin, dmin)     # incl. a single trial distance
             theta = np.array([float(gen.loguniform(rng, aps[0] * 1.01, aps[-1] * 2)) for _ in range(n_bands)]) / (dmin * 1000.0)
         wit0 = dict(mode=mode, style=style, n_models=n_models, n_bands=n_bands, dup=dup, resolved=resolved, memmap=memmap,
                     theta=theta, distance_range=dr, band_wav=wav)
+        pkg_range = [(-100.0, 100.0), (0, 40), (7.0, 30.0), (-20.0, 5.0)][int(rng.integers(4))]   # constructor argument of the Fitter
         try:
-            fitter = gen.make_fitter(bn, theta, d, law, (0.0, 1.0), dr, use_memmap=memmap, remove_resolved=resolved)
+            fitter = gen.make_fitter(bn, theta, d, law, pkg_range, dr, use_memmap=memmap, remove_resolved=resolved)
         except Exception as exc:
             ctx.violation('setup:fitter', 'Fitter() raised: %r' % (exc,), wit0)
             ctx.rmdir(d)
@@ -187,8 +197,7 @@ def run(ctx):
                 cond = np.sum(w[fit] * (k[fit] - wk) ** 2) / np.sum(w[fit] * k[fit] ** 2)
                 if not np.isfinite(cond) or cond < 1e-8:
                     continue
-            lo, hi = [(-100.0, 100.0), (0.0, 40.0), (a0 + 0.5, a0 + 20), (a0 - 20, a0 - 0.5)][int(rng.integers(4))]
-            fitter.av_range = (lo, hi)
+            lo, hi = pkg_range
             truth = fitcheck.GridTruth(names, logm, k, lo, hi, delta=delta, logd=logd)
             REG.clear()
             REG[id(fitter)] = (truth, rownames, mode, resolved or bool(forced_inf))
